@@ -48,6 +48,28 @@ example : depthOf 9 2 ≤ 4 := C18_depthOf_min (by decide) (by decide) (by decid
 example : depthOf 9 2 = 4 := by decide
 example : depthOf 1 7 = 1 := by decide
 
+/-- number of blocks after one layer: `⌈n / k⌉`. -/
+theorem C18_numBlocksAfter {k : Nat} (hk : 0 < k) (n : Nat) : numBlocksAfter k n = (n + k - 1) / k :=
+  numBlocksAfter_eq hk n
+
+/-- after `depthOf n k` layers (or any depth with `n ≤ k ^ d`) a reduced axis has at most one block. -/
+theorem C18_depth_layers_leave_one_block {k : Nat} (hk : 2 ≤ k) (n d : Nat) (hd : depthOf n k ≤ d) :
+    blocksAfterLayers k d n ≤ 1 :=
+  blocksAfterLayers_le_one (by omega) d n
+    (Nat.le_trans (depthOf_spec hk) (Nat.pow_le_pow_right (by omega) hd))
+
+/-- `PartialReduce.chunks` on a reduced axis: `⌈numblocks / k⌉` chunks of size 1. -/
+theorem C18_partialReduceChunks_axis {k : Nat} (hk : 0 < k) (c : List Nat) :
+    (partitionAll k c).map (fun _ => 1) = List.replicate ((c.length + k - 1) / k) 1 :=
+  partialReduceChunks_axis hk c
+
+example : blocksAfterLayers 2 (depthOf 9 2) 9 ≤ 1 := C18_depth_layers_leave_one_block (by decide) 9 _ (Nat.le_refl _)
+example : numBlocksAfter 3 10 = 4 := C18_numBlocksAfter (by decide) 10
+example : partialReduceChunks [[2, 2, 1], [4, 4]] [2, 0] true = [[1, 1], [4, 4]] := by
+  simp [partialReduceChunks, partitionAll_step, partitionAll_nil]
+example : partialReduceChunks [[2, 2, 1], [4, 4]] [2, 0] false = [[4, 4]] := by
+  simp [partialReduceChunks, partitionAll_step, partitionAll_nil]
+
 /-! ### the tree equals the flat reduction -/
 
 /-- abstract `(chunk, combine, aggregate)` triple computing `g`. -/
@@ -218,6 +240,21 @@ example {k depth : Nat} (hk : 2 ≤ k) (ps : List (List Int)) (hps : ps ≠ []) 
     treeReduce k depth (fold1 (· + ·) 0) (fun bs => fold1 (· + ·) 0 bs) (ps.map (fold1 (· + ·) 0))
       = [fold1 (· + ·) 0 ps.flatten] :=
   C18_reduction_any_chunking (· + ·) add_assoc_int 0 id hk hps hne _ (fold1_isHom _ add_assoc_int 0) hdepth
+
+/-! ### n-D layer wiring -/
+
+/-- For the groups `product(*parts)` enumerated by `PartialReduce._layer` (n-D, any per-axis
+`split_every`, `0` = axis not reduced): a block index is referenced by some output task iff it is
+a block of the input grid — nothing dropped, nothing invented. -/
+theorem C18_layer_inputs_cover (numblocks split : List Nat) (h : numblocks.length = split.length)
+    (k : List Nat) :
+    (∃ G ∈ cart (layerParts numblocks split), k ∈ cart G) ↔ k ∈ cart (numblocks.map List.range) :=
+  layer_inputs_cover numblocks split h k
+
+example : (∃ G ∈ cart (layerParts [3, 2] [2, 0]), [2, 1] ∈ cart G) :=
+  (C18_layer_inputs_cover [3, 2] [2, 0] rfl [2, 1]).mpr (by decide)
+example : (partialReduceKeys [3, 2] [2, 0] true).map (·.2.2) = [[[0, 0], [1, 0]], [[0, 1], [1, 1]], [[2, 0]], [[2, 1]]] := by
+  simp [partialReduceKeys, layerParts, cart, partitionAll_step, partitionAll_nil, dropReduced, List.range, List.range.loop]
 
 /-! ### slices pushed through reductions -/
 
